@@ -139,6 +139,30 @@ def run(tier, seed):
                             ck.violation({"clause": "grid_sequence", "what": nm},
                                          "%s at colatitude %.6f (column %d of the grid %s, call %d of a sequence of grids with equal size and end points) differs from the single-colatitude call by %.3g (relative)" % (
                                              nm, thx, j, [round(float(x), 6) for x in grid], rep + 1, float(np.max(np.abs(got - exp))) / sc), {"l": l, "grid": [float(x) for x in grid], "rep": rep})
+        # axis order: potentials that differ along longitude, colatitude AND time (2 x 3 x 2); every (longitude, colatitude, time)
+        # element of the batched result must be the single-point result for the potential values at that element
+        if gi % 16 == 0:
+            Y, radius, shear, bulk = Y0, radius0, shear0, bulk0
+            lons, cols, tims = np.array([0.3, 1.9]), np.array([0.4, theta, 2.5]), np.array([0.0, 7.0e4])
+            wgt = np.array([[[1.0 + 0.25 * a_ - 0.5 * b_ + 0.125 * c_ for c_ in range(2)] for b_ in range(3)] for a_ in range(2)])
+            pots = [z * wgt.astype(np.complex128) for z in (U, Uth, Uph, Uthth, Uphph, Uthph)]
+            eB, sB = calculate_strain_stress(pots[0], pots[1], pots[2], pots[3], pots[4], pots[5], Y, lons, cols, tims, radius, shear, bulk, 1.0e-5, l)
+            ok_shape = eB.shape == (6, len(radius), 2, 3, 2)
+            ck.case(("axis_order", gi), True)
+            if not ok_shape:
+                ck.violation({"clause": "axis_order", "what": "shape"}, "strain tensor has shape %s for (radius, longitude, colatitude, time) = (%d, 2, 3, 2)" % (eB.shape, len(radius)), {"l": l})
+            else:
+                for a_ in range(2):
+                    for b_ in range(3):
+                        for c_ in range(2):
+                            w_ = wgt[a_, b_, c_]
+                            e1, s1 = calculate_strain_stress(mk(U * w_), mk(Uth * w_), mk(Uph * w_), mk(Uthth * w_), mk(Uphph * w_), mk(Uthph * w_), Y, lons[a_:a_ + 1], cols[b_:b_ + 1], tims[c_:c_ + 1],
+                                                             radius, shear, bulk, 1.0e-5, l)
+                            for nm, got, exp in (("strain", eB[:, :, a_, b_, c_], e1[:, :, 0, 0, 0]), ("stress", sB[:, :, a_, b_, c_], s1[:, :, 0, 0, 0])):
+                                sc = max(float(np.max(np.abs(exp))), 1e-300)
+                                if not np.all(np.abs(got - exp) <= 1e-12 * sc):
+                                    ck.violation({"clause": "axis_order", "what": nm}, "%s[:, :, %d, %d, %d] of a (2 longitudes x 3 colatitudes x 2 times) call differs from the single-point call at that element by %.3g (relative)" % (
+                                        nm, a_, b_, c_, float(np.max(np.abs(got - exp))) / sc), {"l": l, "index": [a_, b_, c_]})
         # displacements on the same lattice
         Y = Y0
         rad, pol, azi = calculate_displacements(mk(U), mk(Uth), mk(Uph), Y, theta)
